@@ -145,8 +145,16 @@ fn apply_update(solver: &mut DefaultSolver<f64>, seed: &Seed, op: &Value, before
         "csc" if is_mat => { let M = if t == 0 { seed.p_csc(&full) } else { seed.a_csc(&full) }; updm!(&M) }
         "full_badlen" => { let mut v = full.clone(); v.push(1.0); upd!(&v) }
         "csc_badpattern" => {
-            let M = if t == 0 { CscMatrix::new(2, 2, vec![0, 2, 3], vec![0, 1, 1], full.clone()) }
-                    else { CscMatrix::new(3, 2, vec![0, 1, 3], vec![0, 1, 2], full.clone()) };
+            // two refinements of the model's "same size, different pattern": different column counts, or
+            // identical column pointers with an entry in a different row (chosen by the replay variant)
+            let M = if zipform {
+                if t == 0 { CscMatrix::new(2, 2, vec![0, 2, 3], vec![0, 1, 1], full.clone()) }
+                else { CscMatrix::new(3, 2, vec![0, 1, 3], vec![0, 1, 2], full.clone()) }
+            } else if t == 0 { CscMatrix::new(2, 2, vec![0, 1, 3], vec![1, 0, 1], full.clone()) }
+            else {
+                let other = (0..3).find(|r| *r != seed.a_rows[2]).unwrap();
+                CscMatrix::new(3, 2, vec![0, 2, 3], vec![seed.a_rows[0], seed.a_rows[1], other], full.clone())
+            };
             updm!(&M)
         }
         "csc_baddim" => {
@@ -276,6 +284,59 @@ pub fn replay_one(b: &Value, variant: usize) -> Option<String> {
     match res { Ok(r) => r, Err(e) => Some(format!("panic: {}", crate::rec_ipm::panic_msg(e))) }
 }
 
+/// A history in which wall-clock time matters: a finite time_limit, and every solve is delayed (scripted sleep at
+/// iteration 1) by 40% of the limit.  Each solve alone stays far inside the limit, so every solve of the updated
+/// solver must end like a fresh solver's (which is delayed in the same way); only time charged from *earlier*
+/// solves of the same object could make the third one stop with MaxTime.
+pub fn timed_history(variant: usize) -> Option<String> {
+    use clarabel::verif;
+    let all = seeds();
+    let seed = &all[variant % all.len()];
+    let (limit, delay_ms) = (2.0f64, 800.0f64);
+    let res = catch_unwind(AssertUnwindSafe(|| -> Option<String> {
+        let mut cur: [Vec<usize>; 4] = [vec![0; 3], vec![0; 2], vec![0; 3], vec![0; 3]];
+        let mk = |cur: &[Vec<usize>; 4]| -> (Problem, DefaultSolver<f64>) {
+            let mut p = seed.problem(cur, true);
+            p.settings["time_limit"] = json!(limit);
+            let (P, A) = (p.P.to_clarabel(), p.A.to_clarabel());
+            let s = DefaultSolver::new(&P, &p.q, &A, &p.b, &p.clarabel_cones(), p.settings());
+            (p, s)
+        };
+        let t_s = std::time::Instant::now();
+        let (_, mut solver) = mk(&cur);
+        let setup_wall = t_s.elapsed().as_secs_f64();
+        for round in 0..3usize {
+            verif::set_script(vec![("sleep".to_string(), 1, delay_ms)]);
+            let t0 = std::time::Instant::now();
+            solver.solve();
+            let wall = t0.elapsed().as_secs_f64();
+            let (_, mut fresh) = mk(&cur);
+            fresh.solve();
+            verif::set_script(vec![]);
+            let (s1, s2) = (&solver.solution, &fresh.solution);
+            // if the machine is so loaded that one delayed solve comes near the limit, nothing can be concluded
+            if wall > 0.75 * limit || fresh.info.solve_time > 0.75 * limit { return None; }
+            if s1.status != s2.status || s1.iterations != s2.iterations {
+                return Some(format!("timed history, solve {}: the updated solver ends {:?} after {} iterations (this solve took {:.3}s of a {}s limit, reported solve_time {:.3}s) but a fresh solver on the same data ends {:?} after {}",
+                                    round + 1, s1.status, s1.iterations, wall, limit, s1.solve_time, s2.status, s2.iterations));
+            }
+            // the time reported for a solve cannot exceed the wall-clock time of that call plus the setup
+            if s1.solve_time > wall + setup_wall + 0.05 {
+                return Some(format!("timed history, solve {}: reported solve_time {:.3}s exceeds the call's wall-clock time {:.3}s", round + 1, s1.solve_time, wall));
+            }
+            let ver = round + 1;
+            let t = [1usize, 3, 1][round];
+            let full: Vec<f64> = (0..cur[t].len()).map(|i| seed.value(t, i, ver.min(2))).collect();
+            let r = if t == 1 { res_name(solver.update_q(&full)) } else { res_name(solver.update_b(&full)) };
+            if r != "Ok" { return Some(format!("timed history: update returned {}", r)); }
+            cur[t] = vec![ver.min(2); cur[t].len()];
+        }
+        None
+    }));
+    clarabel::verif::set_script(vec![]);
+    match res { Ok(r) => r, Err(e) => Some(format!("panic: {}", crate::rec_ipm::panic_msg(e))) }
+}
+
 /// an SDP whose PSD(4) cone has an arrow aggregate pattern, so that it is chordally decomposed
 pub fn chordal_problem(equil: bool) -> Problem {
     let n = 4usize; // one variable per diagonal-ish entry
@@ -296,9 +357,16 @@ pub fn replay_file(path: &str, out: &str, seed: u64, every: usize) -> Value {
     let mut bad = vec![];
     let (mut n, mut compared) = (0usize, 0usize);
     let nvar = seeds().len() * 4;
+    let mut timed_done = false;
     for (k, line) in text.lines().enumerate() {
         if line.trim().is_empty() { continue; }
         let b: Value = serde_json::from_str(line).expect("json");
+        if b.get("timed").is_some() {
+            n += 1;
+            timed_done = true;
+            if let Some(m) = timed_history(seed as usize) { bad.push(json!({"behaviour": b, "variant": seed, "mismatch": m, "class": "timed_history"})); }
+            continue;
+        }
         // every behaviour on one variant (rotating with the seed); every `every`-th on all variants
         let variants: Vec<usize> = if every > 0 && k % every == 0 { (0..nvar).collect() } else { vec![(k + seed as usize) % nvar] };
         for v in variants {
@@ -309,6 +377,11 @@ pub fn replay_file(path: &str, out: &str, seed: u64, every: usize) -> Value {
                 bad.push(json!({"behaviour": b, "variant": v, "mismatch": m, "class": class}));
             }
         }
+    }
+    // one wall-clock history per run (costs ~5 s: three delayed solves of the updated and of fresh solvers)
+    if !timed_done { n += 1; compared += 1; }
+    if let Some(m) = if timed_done { None } else { timed_history(seed as usize) } {
+        bad.push(json!({"behaviour": {"blocked": "none", "hist": [], "timed": true}, "variant": seed, "mismatch": m, "class": "timed_history"}));
     }
     crate::write_lines(out, &bad);
     json!({"behaviours": n, "mismatches": bad.len(), "distinct_nontrivial": compared})
